@@ -26,7 +26,7 @@ def Diagram.allSwaps (d : Diagram) : Bool := d.boxes.all Box.isSwap
 def stepPos (o p : Nat) : Nat := if p = o then o + 1 else if p = o + 1 then o else p
 
 /-- Follow the wire at position `p` through swaps at the listed offsets (top to bottom). -/
-def followWire (offs : List Nat) (p : Nat) : Nat := offs.foldl (fun q o => stepPos o q) p
+def traceWire (offs : List Nat) (p : Nat) : Nat := offs.foldl (fun q o => stepPos o q) p
 
 /-- Every offset leaves room for a two-wire box inside a diagram of width `n`. -/
 def offsetsInRange (n : Nat) (os : List Int) : Bool :=
@@ -40,7 +40,7 @@ def Diagram.swapNetwork (d : Diagram) : Bool :=
 
 /-- For each input position its output position; `none` unless the diagram is a swap network. -/
 def wirePerm (d : Diagram) : Option (List Nat) :=
-  if d.swapNetwork then some ((List.range d.dom.length).map (followWire d.natOffsets))
+  if d.swapNetwork then some ((List.range d.dom.length).map (traceWire d.natOffsets))
   else none
 
 /-- Where the block exchange `a | b ↦ b | a` sends position `p`. -/
